@@ -31,7 +31,7 @@ MIN = {
               "structure_depth_independent": 40, "empty_neutral_rejected": 20, "profile_file_roundtrip": 4},
     "thorough": {"duplication_invariant": 8000, "gene_reads_scale": 8000, "self_profile_two": 8000,
                  "structure_depth_independent": 1000, "empty_neutral_rejected": 500,
-                 "profile_file_roundtrip": 100},
+                 "profile_file_roundtrip": 15},
 }
 CASE_TIMEOUT = {"quick": 900, "thorough": 3000}
 
